@@ -1,6 +1,9 @@
 # Registered checks: property -> engines and budgets per tier.
 # batches x runs = simulated cases of the plain binary; race_* = the same engine in the -race binary.
 CHECKS = {
+    "C02": dict(engines=["c02"], level="fault_enumeration",
+                quick=dict(batches=16, runs=1500, timeout=900),
+                thorough=dict(batches=64, runs=40000, timeout=3000)),
     "C08": dict(engines=["c08"], level="exploration",
                 quick=dict(batches=16, runs=60, timeout=900),
                 thorough=dict(batches=64, runs=1500, timeout=3000)),
@@ -36,6 +39,17 @@ PIPE_NOTE = ("The schedule / fault-position dimension is explored by the seeded 
              "only sampled by the workload generator. Oracle = independent Newick reader + brute-force split algebra (no gotree code). Interleavings at hook "
              "granularity; dependencies un-instrumented; go1.26.8 runtime with go1.21 GODEBUG defaults.")
 TEXTS = {
+    "C02": dict(
+        level_text="Fault enumeration on simulated byte streams: for every document of a small corpus covering the five formats, truncation after EVERY byte offset x {EOF, read error} x "
+                   "chunk plans x every reader entry point is executed (complete over that finite space), the multi-tree reader goroutine running under the deterministic "
+                   "scheduler; on top, seeded sampling of mutations (flips, structural insertions, deletions, duplications, splices), chunk plans with zero-length reads, "
+                   "buffer sizes that force the isPrefix path, errors delivered with data, and nesting up to 10^5. Oracle: returns trees or an error within a logical step "
+                   "budget; no panic, os.Exit, deadlock, post-EOF read storm; every delivered tree survives traversal, indexing, writing and cloning. Worker processes are "
+                   "isolated so that a runtime fatal error is attributed to its case.",
+        design_ref="§3.3, §4 C02",
+        level_note="Which answer (error or trees) a reader gives is not asserted. Hang detection is logical (ticks at loop heads of io/..., reads after end of input), a wall-clock "
+                   "watchdog exists only as a backstop (exit 2). The mutation space is sampled, not enumerated. go1.26.8 runtime; encoding/xml and encoding/json run un-instrumented.",
+        technique="deterministic simulation: simulated stream with exhaustive truncation/crash-point enumeration + seeded mutation and chunking faults, reader goroutine under the seeded scheduler"),
     "C08": dict(
         level_text="Seeded simulation of the real Compare / CompareWeighted worker pools (fed by the real reader goroutine over a chunked simulated stream, or by a "
                    "producer that places a taxon-mismatched tree at any position) under the deterministic scheduler; every record is checked against exact set "
